@@ -24,7 +24,7 @@ try:
     rc, out = sh("go build ./... && go build -tags verif ./...", cwd=wt)
     res["builds"] = rc == 0
     for c in checks:
-        rc, out = sh(["./check", c, "--tier", "quick"], cwd="/verif", env=dict(ENV, VERIF_REPO=wt))
+        rc, out = sh(["./check", c, "--tier", "quick"], cwd=os.environ.get("VERIF_DIR", "/verif"), env=dict(ENV, VERIF_REPO=wt))
         vio = [l for l in out.split("\n") if l.startswith("VIOLATION")]
         entry = {"exit": rc, "violation_lines": vio[:4]}
         for l in vio[:1]:
